@@ -51,11 +51,13 @@ var c10Tree = map[string]string{
 	"repo/.github/workflows/s5a.yml": "on: push\njobs:\n  a:\n" + c10Job + "      - uses: ./.github/actions/broken\n      - uses: ./.github/actions/nodesc\n  w:\n    uses: ./.github/workflows/missing.yml\n",
 	"repo/.github/workflows/s5b.yml": "on: push\njobs:\n  b:\n" + c10Job + "      - uses: ./.github/actions/nodesc\n      - uses: ./.github/actions/broken\n  w:\n    uses: ./.github/workflows/missing.yml\n",
 	// S7: files that stop early (YAML syntax error, empty document, not a mapping) next to ordinary ones
+	"repo/.github/workflows/s5c.yml":     "on: push\njobs:\n  c:\n" + c10Job + "      - uses: ./.github/actions/nodesc/\n      - uses: ./.github/../.github/actions/nodesc\n      - uses: ./.github/actions/broken/\n",
 	"repo/.github/workflows/s7bad.yml":   "on: push\njobs:\n  a: [unclosed\n",
 	"repo/.github/workflows/s7empty.yml": "# nothing here\n",
 	"repo/.github/workflows/s7seq.yml":   "- on: push\n",
 	// a file of no repository in a directory ABOVE the repositories (listed before / after their files)
-	"top.yml": "on: push\njobs:\n  a:\n    runs-on: foo-runner\n    steps:\n      - run: echo ${{ vars.ZZZ_VAR }}\n",
+	"custom-config.yaml": "self-hosted-runner:\n  labels:\n    - custom-runner\nconfig-variables:\n  - CUSTOM_VAR\n",
+	"top.yml":            "on: push\njobs:\n  a:\n    runs-on: foo-runner\n    steps:\n      - run: echo ${{ vars.ZZZ_VAR }}\n",
 	// S8: files that belong to no repository (null caches): ill-formed local call, local action, plain
 	"loose/l1.yml": "on: push\njobs:\n  a:\n    uses: ./foo.yml@v1\n  b:\n" + c10Job + "      - uses: ./act\n      - run: echo ${{ vars.X }}\n",
 	"loose/l2.yml": "on: push\njobs:\n  a:\n    uses: ./.github/workflows/nothere.yml\n  b:\n    uses: ./foo.yml@v1\n",
@@ -80,6 +82,7 @@ type c10Scenario struct {
 	Files    []string // relative to the tree root
 	Once     []string // message fragments that must appear exactly once over a run in which they can appear
 	Format   string
+	Config   string // file given as -config-file (relative to the tree root)
 	MinFiles int
 }
 
@@ -89,14 +92,25 @@ var c10Scenarios = []c10Scenario{
 	{Name: "S3-sibling-repositories", Files: []string{"repo/.github/workflows/s3a.yml", "repo2/.github/workflows/s3c.yml", "repo/sub/.github/workflows/s3d.yml"}, MinFiles: 2},
 	{Name: "S3b-nested-repository-git-file", Files: []string{"repo/.github/workflows/s3a.yml", "repo/wt/.github/workflows/s3e.yml", "repo/.github/workflows/s1b.yml"}, MinFiles: 2},
 	{Name: "S4-shared-slices", Files: []string{"repo/.github/workflows/s4a.yml", "repo/.github/workflows/s4b.yml"}, MinFiles: 1},
-	{Name: "S5-broken-callees", Files: []string{"repo/.github/workflows/s5a.yml", "repo/.github/workflows/s5b.yml"}, MinFiles: 2,
+	{Name: "S5-broken-callees", Files: []string{"repo/.github/workflows/s5a.yml", "repo/.github/workflows/s5b.yml", "repo/.github/workflows/s5c.yml"}, MinFiles: 2,
 		Once: []string{"could not parse action metadata", "description is required in metadata of \"nodesc\"", "could not read reusable workflow file"}},
 	{Name: "S7-early-stop", Files: []string{"repo/.github/workflows/s7bad.yml", "repo/.github/workflows/s1a.yml", "repo/.github/workflows/s7seq.yml"}, MinFiles: 2},
 	{Name: "S7b-empty", Files: []string{"repo/.github/workflows/s7empty.yml", "repo/.github/workflows/s1b.yml"}, MinFiles: 2},
 	{Name: "S8-no-repository", Files: []string{"loose/l1.yml", "loose/l2.yml", "loose/l3.yml"}, MinFiles: 2},
 	{Name: "S8b-no-repository-and-repository", Files: []string{"loose/l1.yml", "repo/.github/workflows/s1b.yml"}, MinFiles: 2},
 	{Name: "S9-file-above-repositories", Files: []string{"top.yml", "repo/.github/workflows/s3a.yml", "repo2/.github/workflows/s3c.yml"}, MinFiles: 2},
+	// the configuration comes from -config-file: the files still belong to their repositories
+	// (local actions, reusable workflows)
+	{Name: "S1c-config-file-option", Files: []string{"repo/.github/workflows/s1a.yml", "repo/.github/workflows/s2caller.yml", "repo/.github/workflows/s3a.yml"}, MinFiles: 2, Config: "custom-config.yaml"},
+	{Name: "S3c-config-file-option-repositories", Files: []string{"repo/.github/workflows/s3a.yml", "repo2/.github/workflows/s3c.yml", "repo/wt/.github/workflows/s3e.yml"}, MinFiles: 2, Config: "custom-config.yaml"},
 	{Name: "S6-format", Files: []string{"repo/.github/workflows/s4a.yml", "repo/.github/workflows/s1b.yml"}, MinFiles: 2, Format: "{{range $ := .}}{{$.Filepath}}:{{$.Line}}:{{$.Column}}:{{$.Kind}}\n{{end}}"},
+}
+
+func c10Config(root, rel string) string {
+	if rel == "" {
+		return ""
+	}
+	return filepath.Join(root, rel)
 }
 
 func c10Subsets(files []string, min int) [][]string {
@@ -136,9 +150,9 @@ func c10DiagKey(e *Error) string {
 }
 
 // c10Alone lints one file alone with a fresh Linter (no explorer attached).
-func c10Alone(root, rel, format string) ([]string, error) {
+func c10Alone(root, rel, format, config string) ([]string, error) {
 	var out bytes.Buffer
-	l, err := NewLinter(&out, &LinterOptions{WorkingDir: root, Format: format})
+	l, err := NewLinter(&out, &LinterOptions{WorkingDir: root, Format: format, ConfigFile: c10Config(root, config)})
 	if err != nil {
 		return nil, err
 	}
@@ -178,7 +192,7 @@ func TestVerifC10(t *testing.T) {
 	}
 	r.Bounds["preemptions"] = maxPreempt
 	r.Bounds["semaphore_sizes"] = []int{1, 2}
-	r.Extra["rule"] = "12 scenarios (shared local action, caller+callee, sibling/nested repositories (.git directory and .git file), shared-slice messages, broken callees, files that stop early, files outside any repository (also in a directory above the repositories), -format) x every subset and argument order of their files x semaphore size {1,2} x all interleavings of the real LintFiles up to the preemption bound; oracle: per-file diagnostics = LintFile alone, once-per-run defects exactly once, fingerprints of shared tables and configs unchanged at every scheduling point; class = (scenario, file order, per-file diagnostic counts); non-trivial = more than one file with diagnostics"
+	r.Extra["rule"] = "14 scenarios (shared local action, caller+callee, sibling/nested repositories (.git directory and .git file), shared-slice messages, broken callees, files that stop early, files outside any repository (also in a directory above the repositories), -format, -config-file) x every subset and argument order of their files x semaphore size {1,2} x all interleavings of the real LintFiles up to the preemption bound; oracle: per-file diagnostics = LintFile alone, once-per-run defects exactly once, fingerprints of shared tables and configs unchanged at every scheduling point; class = (scenario, file order, per-file diagnostic counts); non-trivial = more than one file with diagnostics"
 	r.Extra["assumptions"] = []string{"data races are outside a cooperative scheduler's reach (supported by a separate free-running -race pass, not decided here)", "GOMAXPROCS is subsumed by interleavings under data-race freedom"}
 	root := vTempDir(t, "c10-")
 	vWriteFiles(t, root, c10Tree)
@@ -266,7 +280,7 @@ func TestVerifC10(t *testing.T) {
 		sc := &c10Scenarios[si]
 		alone := map[string][]string{}
 		for _, f := range sc.Files {
-			ds, err := c10Alone(root, f, sc.Format)
+			ds, err := c10Alone(root, f, sc.Format, sc.Config)
 			if err != nil {
 				r.HarnessError("%s: linting %s alone failed: %v", sc.Name, f, err)
 				return
@@ -299,7 +313,7 @@ func TestVerifC10(t *testing.T) {
 				body := func(x *vsched.Exec) string {
 					cur = &c10Run{perFile: map[string][]string{}}
 					var out bytes.Buffer
-					l, err := NewLinter(&out, &LinterOptions{WorkingDir: root, Format: sc.Format})
+					l, err := NewLinter(&out, &LinterOptions{WorkingDir: root, Format: sc.Format, ConfigFile: c10Config(root, sc.Config)})
 					if err != nil {
 						panic(err)
 					}
@@ -494,7 +508,7 @@ func TestVerifC10Race(t *testing.T) {
 				}
 				// add a few more files so that several goroutines hit the shared caches and tables
 				var out bytes.Buffer
-				l, err := NewLinter(&out, &LinterOptions{WorkingDir: root, Format: sc.Format})
+				l, err := NewLinter(&out, &LinterOptions{WorkingDir: root, Format: sc.Format, ConfigFile: c10Config(root, sc.Config)})
 				if err != nil {
 					t.Fatal(err)
 				}
